@@ -697,13 +697,15 @@ def check_C15(report, tier, seed, replay=None):
                     ops.append((k, b"keep;"))
             else:
                 ops.append((k,))
+        if rng.random() < 0.3:
+            ops.append(("logout",))     # ends the session: the reply to LOGOUT is read before the socket is closed
         trace = []
         desc = {"property": "C15", "server": rc.describe(), "ops": [[repr(x) for x in o] for o in ops]}
         for j, op in enumerate(ops):
             before = rc.dump()
             # the functional specification (ms/Spec.v, theorem C15_session_refines_spec) on the server state before
             spec = None
-            if op[0] not in ("connect", "capability", "logout"):
+            if op[0] not in ("connect", "capability"):
                 spec = drv.ask("spec_op %d %s" % (1 if version else 0, I.op_tokens(op)))
             ri, rm, _ = rc.both(op)
             after = rc.dump()
